@@ -40,15 +40,15 @@ type Scope struct {
 
 // Case is one record printed by TLC: the program and everything the specification says about it.
 type Case struct {
-	P      []Scope             `json:"p"`
-	Reject bool                `json:"reject"`
-	Why    string              `json:"why"`
-	Cls    []map[string]string `json:"cls"`
-	Cap    []map[string]bool   `json:"cap"`
+	P      []Scope               `json:"p"`
+	Reject bool                  `json:"reject"`
+	Why    string                `json:"why"`
+	Cls    []map[string]string   `json:"cls"`
+	Cap    []map[string]bool     `json:"cap"`
 	Flags  []map[string][]string `json:"flags"`
-	Log    []string            `json:"log"`
-	Org    []string            `json:"org"`
-	SpecOK bool                `json:"specok"`
+	Log    []string              `json:"log"`
+	Org    []string              `json:"org"`
+	SpecOK bool                  `json:"specok"`
 }
 
 // Prologue defines the logging scaffold (vetted core of gpython only); it is executed in the same
